@@ -242,17 +242,83 @@ Qp3Cases == {[m |-> m, n |-> n, v |-> nf] : m \in 0 .. Small, n \in 0 .. Small, 
               \cup {[m |-> b \div 1000, n |-> b % 1000, v |-> nf] : b \in Big, nf \in {0, 10}}
 
 (****************************************************************************)
+(* Triangular inverses and solves (Dtrtri, Dtrti2, Dtrtrs, Dgetri, Dpotri). *)
+(*   M = (I + N1) * (I + N2),  N1 non-zero only in rows < a, columns >= a,  *)
+(*   N2 only in rows < b, columns >= b  (a < b), entries in -2..2 (dense).  *)
+(*   N1^2 = N2^2 = N2*N1 = 0, hence  M^{-1} = I - N1 - N2  exactly, and     *)
+(*   M = I + N1 + N2 + N1*N2 is a dense-looking integer unit upper          *)
+(*   triangular matrix.  T = M * D with D = diag(+-2^e) (variant 1: D = I,  *)
+(*   unit diagonal not referenced; variant 2: one d_k = 0, singular), so    *)
+(*   T^{-1} = D^{-1} * (I - N1 - N2), printed times 4.                      *)
+(*   Solves: B = T * X0, BT = T^T * X0 with integer X0.                     *)
+(*   Dpotri: A = T^T*T with positive D;  A^{-1} = T^{-1} * T^{-T} (times 16).*)
+(*   Dgetri: A = P0^T * L * T with L = I + Lh/2, Lh non-zero only in rows   *)
+(*   >= a, columns < a (Lh^2 = 0, L^{-1} = I - Lh/2, |l| <= 1/2 keeps the   *)
+(*   planted pivots unique);  A^{-1} = T^{-1} * (I - Lh/2) * P0 (times 8).  *)
+(* PlantedLemmas!InverseLemma checks T*Tinv = I, A*Ainv = I on the          *)
+(* instances.                                                               *)
+(****************************************************************************)
+TriInst(n, v, deep) ==
+  LET a == (n + 1) \div 3
+      b == (2 * n + 1) \div 3
+      kz == IF v = 2 THEN H(n, v, 55) % n ELSE -1
+      d == Fn([i \in 0 .. n - 1 |-> IF v = 1 THEN 1 ELSE IF i = kz THEN 0
+                                     ELSE (IF deep THEN 1 ELSE Sign(i, n, 51)) * Pow2(H(i, n, 52) % 3)])
+      N1(i, j) == IF i < a /\ j >= a THEN (H(i, j, 53) % 5) - 2 ELSE 0
+      N2(i, j) == IF i < b /\ j >= b THEN (H(i, j, 54) % 5) - 2 ELSE 0
+      N1m == Mat(n, n, N1)
+      N2m == Mat(n, n, N2)
+      Mv(i, j) == (IF i = j THEN 1 ELSE 0) + N1m[i][j] + N2m[i][j]
+                  + (IF i < a /\ j >= b THEN SumR(LAMBDA k : N1m[i][k] * N2m[k][j], a, b - 1) ELSE 0)
+      T == Mat(n, n, LAMBDA i, j : Mv(i, j) * d[j])
+      \* 4 * T^{-1}[i][j] = (4 / d_i) * (delta_ij - N1 - N2)   (not used when singular)
+      Ti4 == Mat(n, n, LAMBDA i, j : IF d[i] = 0 THEN 0
+                 ELSE (4 \div d[i]) * ((IF i = j THEN 1 ELSE 0) - N1m[i][j] - N2m[i][j]))
+      R == IF v = 2 THEN 0 ELSE Nrhs
+      Xm == Mat(n, R, LAMBDA i, j : (H(i, j, 56) % 9) - 4)
+      Bm == Mat(n, R, LAMBDA i, j : SumR(LAMBDA k : T[i][k] * Xm[k][j], i, n - 1))
+      BTm == Mat(n, R, LAMBDA i, j : SumR(LAMBDA k : T[k][i] * Xm[k][j], 0, i))
+      \* Cholesky inverse (deep, v = 0): 16 * (T^{-1} T^{-T})[i][j]
+      PI == Mat(n, n, LAMBDA i, j : IF deep /\ v = 0 THEN SumR(LAMBDA k : Ti4[i][k] * Ti4[j][k], Max(i, j), n - 1) ELSE 0)
+      \* LU inverse (deep, v = 0)
+      Lh(i, j) == IF i >= a /\ j < a THEN (H(i, j, 57) % 3) - 1 ELSE 0
+      Lhm == Mat(n, n, Lh)
+      ipiv == Fn([j \in 0 .. n - 1 |-> j + (H(j, n, 58) % (n - j))])
+      inv == InvPerm(Pos(ipiv, n, n), n)
+      \* 8 * (T^{-1} (I - Lh/2))[i][j] = 2*Ti4[i][j] - sum_k Ti4[i][k] * Lh[k][j]
+      W == Mat(n, n, LAMBDA i, j : IF deep /\ v = 0
+                 THEN 2 * Ti4[i][j] - (IF j < a THEN SumR(LAMBDA k : Ti4[i][k] * Lhm[k][j], Max(a, i), n - 1) ELSE 0) ELSE 0)
+      \* 2 * (L*T)[i][j]
+      LT2 == Mat(n, n, LAMBDA i, j : IF deep /\ v = 0
+                 THEN 2 * T[i][j] + (IF i >= a THEN SumR(LAMBDA k : Lhm[i][k] * T[k][j], 0, Min(a - 1, j)) ELSE 0) ELSE 0)
+  IN [fam |-> "tri", m |-> n, n |-> n, v |-> v, den |-> 1, kz |-> kz, unit |-> (v = 1), ok |-> (v # 2), deep |-> (deep /\ v = 0),
+      T |-> MatSeq(T, n, n), Inv |-> MatSeq(Ti4, n, n),
+      R |-> R, X |-> MatSeq(Xm, n, R), B |-> MatSeq(Bm, n, R), BT |-> MatSeq(BTm, n, R),
+      PI |-> MatSeq(PI, n, n),
+      LU |-> MatSeq(Mat(n, n, LAMBDA i, j : IF i > j THEN Lhm[i][j] ELSE 2 * T[i][j]), n, n),
+      ipiv |-> VecSeq(ipiv, n),
+      A |-> MatSeq(Fn([i \in 0 .. n - 1 |-> LT2[inv[i]]]), n, n),
+      AI |-> MatSeq(Mat(n, n, LAMBDA i, j : W[i][inv[j]]), n, n),
+      tol |-> 30 * Max(n, 1) * (Norm1(T, n, n) + NormInf(Ti4, n, n))]
+
+\* "deep" instances (with the Cholesky and LU inverses) up to DeepMax; larger sizes only triangular
+DeepMax == 100
+TriCases == {[n |-> n, v |-> v] : n \in (0 .. Small) \cup {b % 1000 : b \in Big}, v \in {0, 1, 2}}
+
+(****************************************************************************)
 Cases == CASE Fam = "lu" -> {x \in LuCases : LuValid(x)}
            [] Fam = "chol" -> {x \in ChCases : ChValid(x)}
            [] Fam = "qr" -> QrCases
            [] Fam = "qp3" -> {z \in Qp3Cases : z.v <= z.n}
+           [] Fam = "tri" -> {z \in TriCases : z.v # 2 \/ z.n >= 1}
            [] Fam = "larft" -> {x \in LarftCases : x.n <= x.m}
 
 Inst(x) == CASE Fam = "lu" -> LuInst(x.m, x.n, x.v)
              [] Fam = "chol" -> ChInst(x.n, x.v)
              [] Fam = "qr" -> QrInst(x.m, x.n)
              [] Fam = "qp3" -> Qp3Inst(x.m, x.n, x.v)
-           [] Fam = "larft" -> LarftInst(x.m, x.n, x.v)
+             [] Fam = "tri" -> TriInst(x.n, x.v, x.n <= DeepMax)
+             [] Fam = "larft" -> LarftInst(x.m, x.n, x.v)
 
 Init == cs \in Cases
 Next == UNCHANGED cs
